@@ -7,7 +7,7 @@ non-finite return value, which get_likelihood_function turns into minus infinity
 from bsvc.contracts import fuc
 from bsvc import speclib, terms as tm
 from bsvc.terms import REAL, T
-from bsvc.values import Obj, Closure
+from bsvc.values import Obj, Closure, Stub
 from bsvc.ir import N
 
 INF = float('inf')
@@ -40,8 +40,6 @@ def _pi(ex):
 def make_self(prior_entry, extra=None):
     """self with prior = {'p': [<type>, params...]}; params named in prior_entry are fresh reals"""
     def build(ex, cls):
-        o = Obj(cls, cls.name, symbolic=False, exact=True, name='self')
-        o.ref = ex.fresh('self_ref', 'Int')
         entry = []
         for x in prior_entry:
             if isinstance(x, str) and x.startswith('$'):
@@ -50,7 +48,14 @@ def make_self(prior_entry, extra=None):
                 entry.append(v)
             else:
                 entry.append(x)
-        o.fields['prior'] = {'p': entry}
+        # the object is built by the real constructor (so per-instance state it sets up exists), with a stub model
+        o = ex.allocate(cls, 'self')
+        M = Stub('M', methods={'get_parameter_dictionary': lambda ex_: {}})
+        ex.force_inline = True
+        try:
+            ex.call_method(o, ex.program.find_method(cls, '__init__'), [['p'], M, {'p': entry}], {})
+        finally:
+            ex.force_inline = False
         if extra:
             extra(ex, o)
         return o
@@ -154,3 +159,49 @@ def _(c):
     c.raises('ValueError')
     c.ensures('False', label='must-raise')
     c.opt(verify_only=True)
+
+
+# two parameters of the SAME family with independent prior parameters: the log-prior of the vector is the sum of the
+# two named log-densities (this is where per-instance state shared between evaluations would show)
+def check_prior_pair(family):
+    params, pre, support, density = FAMILIES[family][:4]
+
+    @fuc('pid_interfaces', 'PIDInterface.check_prior', props=['C16', 'C15'], variant='pair:' + family)
+    def _(c):
+        names1 = [x[1:] + '1' for x in params]
+        names2 = [x[1:] + '2' for x in params]
+
+        def extra(ex, o):
+            e2 = [family]
+            for nm in names2:
+                v = ex.fresh(nm, REAL)
+                ex.frame.env[nm] = v
+                e2.append(v)
+            e1 = o.fields['prior']['p']
+            for nm, v in zip(names1, e1[1:]):
+                ex.frame.env[nm] = v
+            o.fields['prior'] = {'p': e1, 'p2': e2}
+        c.concrete_self = make_self([family] + params, extra)
+
+        def pdict(ex):
+            v1, v2 = ex.fresh('v1', REAL), ex.fresh('v2', REAL)
+            ex.frame.env['v1'], ex.frame.env['v2'] = v1, v2
+            return {'p': v1, 'p2': v2}
+        c.hints['params_dict'] = dict(value=pdict)
+
+        def ren(txt, suffix):
+            import re
+            out = txt
+            for x in params:
+                out = re.sub(r'\b%s\b' % x[1:], x[1:] + suffix, out)
+            return re.sub(r'\bv\b', 'v' + suffix, out)
+        for p in pre:
+            c.requires(ren(p, '1'))
+            c.requires(ren(p, '2'))
+        c.ensures('implies((%s) and (%s), finite(result) and result == %s + %s)'
+                  % (ren(support, '1'), ren(support, '2'), ren(density, '1'), ren(density, '2')), label='sum-of-two')
+        c.opt(verify_only=True)
+
+
+for fam in FAMILIES:
+    check_prior_pair(fam)
